@@ -185,10 +185,35 @@ func genRegressionStreams(rng *vh.Rng, n int, emit func(id string, sel int, in [
 	}
 	emitEnqueue := func(id string, in []int64) {
 		kind, qs, js := decEnqueue(in)
-		inq, pend, nopods := false, false, 0
-		for _, j := range js {
-			inq = inq || (j.Phase == 2 && j.HasMin != 0)
-			pend = pend || (j.Phase == 1 && j.HasMin != 0)
+		// pre-run: was a guard of law 119 exercised with a capability that can bind?  non-trivial :=
+		// some positive JobEnqueueable vote for a PodGroup whose minResources ask a dimension a queue
+		// capability lists, or some positive Allocatable vote for a pod requesting such a dimension
+		obs := runEnqueueCase(in)
+		capMask := int64(0)
+		for _, q := range qs {
+			capMask |= q.Mask & 7
+		}
+		base := 2 + 7*len(qs) + 1
+		nontrivial := false
+		av := [3]int{}
+		vt := [3]int{}
+		nopods := 0
+		for k, j := range js {
+			f := obs[base+22*k : base+22*k+22]
+			vt[f[14]]++
+			av[f[18]]++
+			if f[14] == 1 && j.HasMin != 0 && j.Mask&capMask != 0 {
+				nontrivial = true
+			}
+			cm := int64(0)
+			for d := 0; d < 3; d++ {
+				if f[19+d] > 0 {
+					cm |= 1 << d
+				}
+			}
+			if f[18] == 1 && cm&capMask != 0 {
+				nontrivial = true
+			}
 			if j.Phase == 2 && j.NT == 0 {
 				nopods++
 			}
@@ -197,8 +222,9 @@ func genRegressionStreams(rng *vh.Rng, n int, emit func(id string, sel int, in [
 		if kind >= 10 {
 			gates = "gates=SchedulingGatesQueueAdmission"
 		}
-		emit(id, 7, in, "enqueue-action/"+kindName(kind%10)+"/"+gates, inq && pend,
-			map[string]any{"queues": len(qs), "jobs": len(js), "inqueueWithoutPods": nopods})
+		emit(id, 7, in, "enqueue-action/"+kindName(kind%10)+"/"+gates, nontrivial,
+			map[string]any{"queues": len(qs), "jobs": len(js), "inqueueWithoutPods": nopods,
+				"enqueueVotes[false,true,notAsked]": vt, "allocatableVotes[false,true,noCandidate]": av})
 	}
 	emitPreempt("preempt-witness-mutantB", []int64{6, 4, 1, 2, 2, 0, 0, 1})
 	emitPreempt("preempt-witness-unfit", []int64{3, 2, 2, 3, 0, 0, 0, 1})
@@ -209,6 +235,7 @@ func genRegressionStreams(rng *vh.Rng, n int, emit func(id string, sel int, in [
 		emitEnqueue(fmt.Sprintf("enqueue-scalar-witness-%d", k), enqueueScalarWitness(k))
 	}
 	emitEnqueue("enqueue-gate-reserved-witness", enqueueGateReservedWitness())
+	emitEnqueue("enqueue-gated-strict-reading-by-design", enqueueGatedStrictWitness(kFlat))
 	emitEnqueue("enqueue-closed-children-witness", enqueueClosedChildrenWitness())
 	// allocate with a failing allocate callback ahead of the queue plugin: non-trivial when queue 1
 	// asks for more than it may have (directed half of the stream)
